@@ -6,6 +6,10 @@ import vlib
 import c02lib
 
 
+def established_13(c):
+    return c["cdone"] and c["sdone"] and c["cerr"] == "ok" and c["serr"] == "ok"
+
+
 def run(chk):
     proved = chk.prove()
     out = vlib.out_path("c02")
@@ -35,6 +39,35 @@ def run(chk):
                         "%s [variant %s, mask %s]" % (m, c["variant"], c["mask"]),
                         {"how": "scripted network: action per emitted datagram index (pass/drop/dup/hold:k), then reliable",
                          "case": c02lib.slim(c)})
+    # DTLS 1.3 handshakes (with/without HelloRetryRequest, fragmented): monitor-only leg
+    out13 = vlib.out_path("c02v13")
+    rc13, o13 = vlib.go_test(".", "^TestVerifC02V13$", {"VERIF_SEED": chk.seed, "VERIF_TIER": chk.tier, "VERIF_OUT": out13},
+                             tags=["c02"], timeout=3000)
+    cases13 = vlib.read_jsonl(out13)
+    vlib.cleanup(out13)
+    if rc13 != 0:
+        kind = vlib.classify_go_failure(o13)
+        if kind == "panic":
+            found = True
+            chk.finding("handshake (DTLS 1.3)", {"monitor": "panic"}, "panic during scripted DTLS 1.3 handshakes", {"output": o13[-4000:]})
+        else:
+            chk.broken("correspondence harness TestVerifC02V13 no longer runs against /repo (%s)" % kind, o13)
+    fails13 = {}
+    for c in cases13:
+        m = c02lib.monitor_liveness(c)
+        if m:
+            cl = "pending" if not c["cdone"] else ("ok" if c["cerr"] == "ok" else c["cerr"].split(":")[-1].strip()[:40])
+            sv = "pending" if not c["sdone"] else ("ok" if c["serr"] == "ok" else c["serr"].split(":")[-1].strip()[:40])
+            key = (cl, sv) if not established_13(c) else ("data", "data")
+            fails13.setdefault(key, []).append(c)
+    for (cl, sv), cs in sorted(fails13.items()):
+        c = min(cs, key=lambda x: (sum(1 for a in (x["mask"] or []) if a != "pass"), len(x["mask"] or [])))
+        found = chk.finding("internal/handshake fsm13.go (DTLS 1.3 handshake under loss)",
+                            {"family": "dtls13", "monitor": "handshake did not complete", "client": cl, "server": sv},
+                            "DTLS 1.3 handshake did not complete: client=%s server=%s [variant %s, mask %s; %d masks with this outcome]" % (
+                                cl, sv, c["variant"], c["mask"], len(cs)),
+                            {"case": {k: c[k] for k in ("variant", "mask", "cdone", "sdone", "cerr", "serr", "tdone")},
+                             "all_masks": [(x["variant"], x["mask"]) for x in cs][:40]}) or found
     if proved:
         bad = c02lib.accept(chk, "c02", cases)
         for i in (bad or [])[:1]:
@@ -52,6 +85,10 @@ def run(chk):
     vs = {}
     for c in cases:
         vs[c["variant"]] = vs.get(c["variant"], 0) + 1
+    chk.count("dtls13_masks", len(cases13), [(c["variant"], tuple(c["mask"] or [])) for c in cases13
+                                             if c["mask"] and any(a != "pass" for a in c["mask"])])
+    chk.leg_info("dtls13_masks", not_completed=sum(len(v) for v in fails13.values()),
+                 note="monitor-only: the Coq model is the DTLS 1.2 machinery")
     chk.leg_info("masks", variants=vs, max_completion_ms=max([c["tdone"] for c in cases] or [0]),
                  exhaustive="every mask over {pass,drop,dup,hold:1,hold:3}^N for the first N=%d datagrams on psk and "
                             "psk-nohint; every single fault at positions 0..9 on every variant" % (5 if chk.tier == "thorough" else 3))
